@@ -73,6 +73,7 @@ def parseAct (t : String) : Option Nested :=
     | [c, ty] => some (.trigger (toN c) (toI ty))
     | _ => none
   | some 'x' => some (.holdExit (toI body))
+  | some 'z' => some (.report (toN body))
   | some 'p' => match parts with
     | [sl, off, d] => some (.poke (toN sl) (toN off) (unhex d))
     | _ => none
